@@ -76,6 +76,7 @@ type Ctx struct {
 	paramRef map[*ssa.Function]map[*ssa.Parameter]string
 	// helpers through which an anchor call was found (call-tree search): their results read as what they return
 	inlineFns    map[*ssa.Function]bool
+	structLits   map[string]map[string]string // struct literals handed to a callee by value: token -> field -> path in the caller's frame
 	ftMemo       map[*types.Named][]*ssa.Function
 	faMemo       map[*ssa.Parameter][]*ssa.Function
 	extraCut     map[edge]bool          // edges excluded for the current top-level guard query (a case split on a φ)
@@ -84,6 +85,8 @@ type Ctx struct {
 	fnArgs       map[string]fnArg            // calleeEnvV: functions handed to callees as arguments, by the name they carry in the callee env
 	condEnv      Env                         // canonCond: the frame conditions are rendered in (nil: the function's own)
 	fnSubst      map[ssa.Value]*ssa.Function // guardViaTable: function-valued fields of the current table element
+	mcSubst      map[ssa.Value]*ssa.MakeClosure
+	valSubst     map[ssa.Value]ssa.Value
 	gsMemo       map[*ssa.Global]*ssa.Slice
 	boolOrigins  map[string]boolOrigin          // calleeEnvV: test results handed to callees as boolean arguments, by path
 	nameHandedOn bool                           // calleeEnvV: a call result the callee hands on is named after the caller-side call value
@@ -405,7 +408,7 @@ var unexportedTypeRe = regexp.MustCompile(`(github\.com/trustbloc/sidetree-go/[A
 func (c *Ctx) renamedAnchor(key string) *ssa.Function {
 	want, ok := anchorSigs[key]
 	if !ok {
-		return nil
+		return c.roleAnchor(key)
 	}
 	prefix := key[:strings.LastIndex(key, ".")+1]
 	var found []*ssa.Function
@@ -424,7 +427,85 @@ func (c *Ctx) renamedAnchor(key string) *ssa.Function {
 	if len(found) == 1 {
 		return found[0]
 	}
+	return c.roleAnchor(key)
+}
+
+// roleAnchor: an unexported helper that was renamed and re-shaped at once is found by what it does — the one function
+// of its package that plays the role (nil when none or several do).
+func (c *Ctx) roleAnchor(key string) *ssa.Function {
+	role, ok := anchorRoles[key]
+	if !ok {
+		return nil
+	}
+	prefix := key[:strings.LastIndex(key, ".")+1]
+	pkg := modPkg + strings.SplitN(strings.TrimSuffix(prefix, "."), ".(", 2)[0]
+	var found []*ssa.Function
+	for _, f := range c.Funcs {
+		if pkgPathOf(f) != pkg || f.Blocks == nil || f.Object() == nil || f.Object().Exported() || f.Synthetic != "" {
+			continue
+		}
+		if k := sigKey(f); k != "" {
+			if _, existed := anchorSigs[k]; existed {
+				continue
+			}
+		}
+		if role(c, f) {
+			found = append(found, f)
+		}
+	}
+	if len(found) == 1 {
+		return found[0]
+	}
 	return nil
+}
+
+// appendsInLoop: f has a loop in which it appends to a slice of the given element type.
+func appendsInLoop(f *ssa.Function, elem string) bool {
+	hit := false
+	for _, l := range naturalLoops(f) {
+		for b := range l.blocks {
+			for _, in := range b.Instrs {
+				if cl, ok := in.(*ssa.Call); ok {
+					if bi, isB := cl.Call.Value.(*ssa.Builtin); isB && bi.Name() == "append" && typeShort(cl.Type()) == elem {
+						hit = true
+					}
+				}
+			}
+		}
+	}
+	return hit
+}
+
+// buildsInLoop: f has a loop in which it allocates a struct of the named type.
+func buildsInLoop(f *ssa.Function, typeName string) bool {
+	hit := false
+	for _, l := range naturalLoops(f) {
+		for b := range l.blocks {
+			for _, in := range b.Instrs {
+				if al, ok := in.(*ssa.Alloc); ok {
+					if n, isN := derefT(al.Type()).(*types.Named); isN && n.Obj().Name() == typeName {
+						hit = true
+					}
+				}
+			}
+		}
+	}
+	return hit
+}
+
+var anchorRoles = map[string]func(c *Ctx, f *ssa.Function) bool{
+	"versions/1_0/doctransformer/didtransformer.(Transformer).processServices": func(c *Ctx, f *ssa.Function) bool {
+		return appendsInLoop(f, "[]document.Service")
+	},
+	"versions/1_0/doctransformer/didtransformer.(Transformer).processKeys": func(c *Ctx, f *ssa.Function) bool {
+		return appendsInLoop(f, "[]document.PublicKey")
+	},
+	"versions/1_0/doctransformer/metadata.getPublishedOperations": func(c *Ctx, f *ssa.Function) bool {
+		return buildsInLoop(f, "PublishedOperation")
+	},
+	"versions/1_0/doctransformer/metadata.getUnpublishedOperations": func(c *Ctx, f *ssa.Function) bool {
+		return buildsInLoop(f, "UnpublishedOperation")
+	},
 }
 
 func allFuncs(p *ssa.Package) []*ssa.Function {
@@ -962,5 +1043,22 @@ func sigParamTypes(sig string) []string {
 		}
 	}
 	flush(sig[start:end])
+	return out
+}
+
+// methodsOf: the source-declared methods of a named type (value and pointer receivers), sorted by name.
+func (c *Ctx) methodsOf(nt *types.Named) []*ssa.Function {
+	var out []*ssa.Function
+	seen := map[*ssa.Function]bool{}
+	for _, ty := range []types.Type{nt, types.NewPointer(nt)} {
+		ms := c.Prog.MethodSets.MethodSet(ty)
+		for i := 0; i < ms.Len(); i++ {
+			if f := c.Prog.MethodValue(ms.At(i)); f != nil && f.Synthetic == "" && !seen[f] {
+				seen[f] = true
+				out = append(out, f)
+			}
+		}
+	}
+	sort.Slice(out, func(i, j int) bool { return out[i].Name() < out[j].Name() })
 	return out
 }
